@@ -573,6 +573,10 @@ func runC05(cfg *runCfg) error {
 	if err != nil {
 		return err
 	}
+	nTrunc, err := c05Intrunc(cfg, r, cf, m, dist)
+	if err != nil {
+		return err
+	}
 
 	total := 0
 	keys := []string{}
@@ -581,10 +585,10 @@ func runC05(cfg *runCfg) error {
 		keys = append(keys, k)
 	}
 	sort.Strings(keys)
-	total = len(connCases) + len(pubCases) + len(subCases) + len(unsubCases) + len(smallCases) + len(lenCases) + len(bigCases) + len(inCases) + len(inbigCases) + nInseq + nRetry + nLong + nResub + nInread + nParked
+	total = len(connCases) + len(pubCases) + len(subCases) + len(unsubCases) + len(smallCases) + len(lenCases) + len(bigCases) + len(inCases) + len(inbigCases) + nInseq + nRetry + nLong + nResub + nInread + nParked + nTrunc
 	m.Evaluations = total
 	m.DistinctNontrivial = len(connCases) + len(pubCases) + len(subCases) + len(inCases) - dist["publish_rejected"] + nInseq + nRetry + nLong + nLong
-	m.Rule = "public API only: Connect with random option combinations (will, credentials, levels, keep-alive), Publish (all QoS/retain/ids, MaxPayloadLen boundaries, invalid QoS), Subscribe/Unsubscribe lists, Ping/Disconnect and the reader's acknowledgements on an in-memory transport; bytes written are compared with the model and decoded by the independent decoder inside Coq; remainingLength at every boundary +-3 and random values; payload lengths across the 1/2/3/4-byte boundaries as header prefix + total length; inbound PUBLISH delivered through the real serve loop; inbound sequences (60 systematic: a QoS 2 PUBLISH, 1-4 packets of one kind with shorter/equal/longer bodies, its PUBREL; random: PUBLISH of all QoS, stray acknowledgements, SUBACKs, PINGRESPs, every QoS 2 message released after 1-4 other packets) fed as one byte stream, the handler's snapshots compared with the independent decoder's reading of the stream; retry handles: QoS 1/2 Publish, Subscribe, Unsubscribe interrupted by a write error / the peer closing / context cancellation at every point of the exchange, the returned ErrorWithRetry retried on a fresh connected BaseClient (and interrupted once more: retry of a retry), every packet handed to every transport decoded inside Coq. length-prefixed fields of 65,534 / 65,535 / 65,536 / 65,537 / 70,000 / 131,072 / 131,073 bytes in every position (CONNECT client id, will topic, will payload, user name, password; every SUBSCRIBE / UNSUBSCRIBE filter position; PUBLISH topic): either rejected (error or recovered panic) with nothing written, or the written packet decodes to the request. re-subscription: Subscribe/Unsubscribe histories through a RetryClient whose broker grants min(requested, cap) (last scenarios: 0x80), connection cut, fresh BaseClient via SetClient, Connect without session, Resubscribe+Retry, once or twice; every packet after the CONNECT of the later connections decoded. inbound streams delivered in chosen Read segments (several packets in one Read, one packet per Read, boundaries inside fixed headers, random) on a segment transport; messages published through a RetryClient while its retry queue is not empty (during the outage / before Retry()), every field set, compared with the application's request. distinct_nontrivial = connect + accepted publish + subscribe + inbound cases + inbound sequences + retry scripts + long-field cases + re-subscription scenarios + read-segment cases + parked-publish scenarios (randomly generated, duplicates not removed: counted conservatively as generated minus rejected)"
+	m.Rule = "public API only: Connect with random option combinations (will, credentials, levels, keep-alive), Publish (all QoS/retain/ids, MaxPayloadLen boundaries, invalid QoS), Subscribe/Unsubscribe lists, Ping/Disconnect and the reader's acknowledgements on an in-memory transport; bytes written are compared with the model and decoded by the independent decoder inside Coq; remainingLength at every boundary +-3 and random values; payload lengths across the 1/2/3/4-byte boundaries as header prefix + total length; inbound PUBLISH delivered through the real serve loop; inbound sequences (60 systematic: a QoS 2 PUBLISH, 1-4 packets of one kind with shorter/equal/longer bodies, its PUBREL; random: PUBLISH of all QoS, stray acknowledgements, SUBACKs, PINGRESPs, every QoS 2 message released after 1-4 other packets) fed as one byte stream, the handler's snapshots compared with the independent decoder's reading of the stream; retry handles: QoS 1/2 Publish, Subscribe, Unsubscribe interrupted by a write error / the peer closing / context cancellation at every point of the exchange, the returned ErrorWithRetry retried on a fresh connected BaseClient (and interrupted once more: retry of a retry), every packet handed to every transport decoded inside Coq. length-prefixed fields of 65,534 / 65,535 / 65,536 / 65,537 / 70,000 / 131,072 / 131,073 bytes in every position (CONNECT client id, will topic, will payload, user name, password; every SUBSCRIBE / UNSUBSCRIBE filter position; PUBLISH topic): either rejected (error or recovered panic) with nothing written, or the written packet decodes to the request. re-subscription: Subscribe/Unsubscribe histories through a RetryClient whose broker grants min(requested, cap) (last scenarios: 0x80), connection cut, fresh BaseClient via SetClient, Connect without session, Resubscribe+Retry, once or twice; every packet after the CONNECT of the later connections decoded. inbound streams delivered in chosen Read segments (several packets in one Read, one packet per Read, boundaries inside fixed headers, random) on a segment transport; messages published through a RetryClient while its retry queue is not empty (during the outage / before Retry()), every field set, compared with the application's request. large inbound PUBLISH (remaining length 65,537 / 100,000 / 300,000) cut by the end of the stream after 1 byte, at 64 KiB, at len-1, and complete ones of 65,535 / 65,536 / 65,537 / 300,000; SUBSCRIBE/UNSUBSCRIBE histories through a RetryClient incl. unsubscribing filters it never subscribed, on fresh and resumed sessions, the wire compared with the requests in order. distinct_nontrivial = connect + accepted publish + subscribe + inbound cases + inbound sequences + retry scripts + long-field cases + re-subscription scenarios + read-segment cases + parked-publish scenarios (randomly generated, duplicates not removed: counted conservatively as generated minus rejected)"
 	_ = context.Background
 	if err := cf.write(cfg.outDir); err != nil {
 		return err
